@@ -33,7 +33,7 @@ def tlc_family(name, cfg, workdir_tag, simulate=None, limit=None, seed=1, **kw):
     """programs enumerated / simulated by TLC from GenEngine.tla"""
     import os, random
     import pipeline as P
-    progs, st = FE.tlc_programs(cfg, os.path.join(P.OUT, "gen_" + workdir_tag), simulate=simulate, seed=seed,
+    progs, st = FE.tlc_programs(cfg, os.path.join(P.OUT, "gen_" + workdir_tag + os.environ.get("VERIF_TAG", "")), simulate=simulate, seed=seed,
                                 limit=limit, rnd=random.Random(seed))
     d = {"name": name, "cases": progs, "gen_stats": st,
          "what": "programs %s by TLC from spec/GenEngine.tla with %s.cfg (%d behaviours%s)" % (
@@ -332,11 +332,12 @@ PROPERTIES = {
             {"name": "broadcast_updates", "cases": FE.c03_cases("quick", seed + 1), "mask": M_IMM,
              "what": "passes followed by optimizer updates while older handles of the parameters stay alive"},
             tlc_family("tlc_histories", "GenEngine_hist", "C08", simulate=(150 if tier == "quick" else 1500, 20), seed=seed + 4, mask=M_IMM),
+            tlc_family("tlc_update_histories", "GenEngine_upd", "C08u", simulate=(60 if tier == "quick" else 600, 20), seed=seed + 5, mask=M_IMM),
         ],
         "rule": "a case = one history; every live handle's digest is compared at every step; distinct by program hash",
     },
     "C13": {
-        "level_text": "AutodiffAbs!Update states the property (old - lr*g per parameter holding a gradient, same dims, tracked, slot emptied, others untouched, older handles intact); TLC checks UpdateExact on it and that the implementation-shaped update (flat concatenation, one fused multiply-add, drain skipping frozen parameters - as gd.rs is written) refines it for every parameter list of 1..2 (thorough 1..3) entries over 6 shapes, every subset holding a gradient, 5 learning rates, two updates in a row; the trace specification validates GradientDescent::update on the real crate for lists of 1..4 parameters with prime-valued data, gradients deposited through gradient_mut and through real passes, comparing every element, flag, slot and the digests of older handles",
+        "level_text": "AutodiffAbs!Update states the property (old - lr*g per parameter holding a gradient, same dims, tracked, slot emptied, others untouched, older handles intact); TLC checks UpdateExact on it and that the implementation-shaped update (flat concatenation, one fused multiply-add, drain skipping frozen parameters - as gd.rs is written) refines it for every parameter list of 1..2 (thorough 1..3) entries over 6 shapes, every subset holding a gradient, 5 learning rates, two updates in a row; the trace specification validates GradientDescent::update on the real crate for lists of 1..4 parameters with prime-valued data, gradients deposited through gradient_mut and through real passes, comparing every element, flag, slot and the digests of older handles; TLC-simulated histories of the specification itself (GenEngine with UpdateStep: updates of one or two arbitrary live handles - leaves, clones, results - interleaved with operations, passes, clears, flag changes, clones and drops) are replayed on the real crate and validated step by step",
         "level_note": ENGINE_NOTE,
         "technique": "TLC model checking (UpdateRefines, UpdateExact) + TLC trace validation of update histories on the real crate",
         "mc": lambda tier: [mc("MC_Optimizer_" + tier, module="MC_Optimizer")],
@@ -344,6 +345,8 @@ PROPERTIES = {
             {"name": "updates", "cases": FM.c13_cases(tier, seed), "mask": M_UPD | M_GRAD | {"immutable"},
              "what": "parameter lists of 1..4 entries over 6 shapes, a subset holding gradients, learning rates {0, 1, 1/2, -2, 3/4}, two updates in a row, older clones kept alive; gradients from real passes with frozen parameters in between",
              "require": {"updates": 400}},
+            tlc_family("tlc_update_histories", "GenEngine_upd", "C13", simulate=(60 if tier == "quick" else 600, 20), seed=seed + 6,
+                       mask=M_UPD | M_GRAD | {"immutable", "tracked-flag"}, require={"updates": 300}),
             {"name": "model_updates", "cases": FM.model_update_cases(tier, seed), "mask": M_UPD | {"grad-presence", "tracked-flag"},
              "what": "Model::update over 1-2 dense layers: a new Model built over the same layers between backward and update, repeated updates and backward passes, frozen parameters - every parameter and slot after every update",
              "require": {"updates": 20}},
